@@ -369,12 +369,50 @@ def trr_frame(endian, double, natoms, step, rng):
     return h, body, {"box": box, "x": x, "v": v, "step": step}
 
 
-def trr_run(tmpdir, data: bytes, schedule):
+class _FileProxy:
+    """wraps the TRR file object: records every read (offset, requested, returned, bytes visible)"""
+
+    def __init__(self, fh, trace, state):
+        self._fh, self._trace, self._state = fh, trace, state
+
+    def read(self, n=-1):
+        off = self._fh.tell()
+        buf = self._fh.read(n)
+        self._trace.append(("read", off, n, len(buf), self._state["prev"], self._state["running"]))
+        return buf
+
+    def __getattr__(self, name):
+        return getattr(self._fh, name)
+
+
+class _OsShim:
+    """stands in for the name `os` inside gromacs.py: getsize calls are recorded, the rest is os"""
+
+    class _Path:
+        def __init__(self, trace, state):
+            self._trace, self._state = trace, state
+
+        def getsize(self, p):
+            s = os.path.getsize(p)
+            self._trace.append(("size", s, self._state["running"]))
+            return s
+
+        def __getattr__(self, name):
+            return getattr(os.path, name)
+
+    def __init__(self, trace, state):
+        self.path = _OsShim._Path(trace, state)
+
+    def __getattr__(self, name):
+        return getattr(os, name)
+
+
+def trr_run(tmpdir, data: bytes, schedule, trace=None):
     """drive the real get_gromacs_frames: every check_poll()/sleep() call makes the next chunk visible"""
     from infretis.classes.engines import gromacs as gm
     path = os.path.join(tmpdir, "traj.trr")
     cuts = list(schedule)
-    state = {"i": 0, "prev": 0, "ticks": 0}
+    state = {"i": 0, "prev": 0, "ticks": 0, "running": True}
     fh = open(path, "wb", buffering=0)
 
     def grow():
@@ -400,15 +438,23 @@ def trr_run(tmpdir, data: bytes, schedule):
     runner.stop_read = False
     runner.fileh = open(path, "rb")
     runner.ino = os.fstat(runner.fileh.fileno()).st_ino
+    if trace is not None:
+        runner.fileh = _FileProxy(runner.fileh, trace, state)
     runner.running = None      # nothing to stop in __del__
     runner.stdout = runner.stderr = None
 
     def check_poll():
-        return 0 if grow() else None
+        if grow():
+            state["running"] = False
+            return 0
+        return None
 
     runner.check_poll = check_poll
     old_sleep = gm.sleep
+    old_os = gm.os
     gm.sleep = lambda _t: grow()
+    if trace is not None:
+        gm.os = _OsShim(trace, state)
     out = []
     try:
         try:
@@ -418,9 +464,30 @@ def trr_run(tmpdir, data: bytes, schedule):
             out.append(err_kind(e))
     finally:
         gm.sleep = old_sleep
+        gm.os = old_os
         runner.fileh.close()
         fh.close()
     return out
+
+
+def trr_ticks(trace):
+    """real trace -> (sizes seen by the guards while running, per-guard canonical events, bad reads)"""
+    sizes, ticks, bad = [], [], []
+    for ev in trace:
+        if ev[0] == "size":
+            if ev[2]:
+                sizes.append(ev[1])
+                ticks.append(None)
+        else:
+            _, off, req, got, visible, running = ev
+            if got != req or off + req > visible:
+                bad.append(ev)
+            if running and ticks:
+                if ticks[-1] is None:
+                    ticks[-1] = [off, req, sizes[-1]]
+                else:
+                    ticks[-1][1] += req
+    return sizes, ["w" if t is None else f"r:{t[0]}:{t[1]}:{t[2]}" for t in ticks], bad
 
 
 def check_trr(ctx, tmpdir):
@@ -440,9 +507,22 @@ def check_trr(ctx, tmpdir):
             for _ in range(3 if ctx.quick else 30):
                 cs = sorted(rng.sample(range(1, T), min(T - 1, rng.randrange(1, 12)))) + [T]
                 scheds.append(cs)
+            hd = []
+            for h, b, _ in parts:
+                hd += [len(h), len(b)]
+            model_lines, model_ticks = [], []
             for sch in scheds:
                 ncase += 1
-                out = trr_run(tmpdir, data, sch)
+                trace = []
+                out = trr_run(tmpdir, data, sch, trace)
+                sizes, ticks, badreads = trr_ticks(trace)
+                if badreads:
+                    ctx.fail("C13:trr:read-beyond-visible-bytes",
+                             f"read (offset, requested, returned, visible) = {badreads[0][1:5]}",
+                             {"kind": "trr", "endian": endian, "double": double, "natoms": natoms,
+                              "nframes": nframes, "data": data.hex(), "schedule": sch})
+                model_lines.append(f"trr {lst(hd)} {lst(sizes)}")
+                model_ticks.append((sch, ticks))
                 ctx.count(1, branch=f"trr:{'big' if endian == '>' else 'little'}:{'double' if double else 'single'}")
                 bad = None
                 got = []
@@ -466,6 +546,13 @@ def check_trr(ctx, tmpdir):
                                               "nframes": nframes, "data": data.hex(), "schedule": sch})
                 if len(sch) > 1:
                     ctx.distinct(("trr", endian, double, natoms, tuple(sch)))
+            if ctx._driver_ok:
+                for (sch, ticks), ans in zip(model_ticks, ctx.driver(model_lines)):
+                    mt = [t for t in ans.split() if not t.startswith("y:")]
+                    ctx.count(1, branch="trr:guard-trace-vs-model")
+                    if mt != ticks:
+                        ctx.disagree({"fn": "get_gromacs_frames guards vs trrRun", "endian": endian,
+                                      "double": double, "natoms": natoms, "schedule": sch[:20]}, ticks[:40], mt[:40])
     return ncase
 
 
@@ -592,8 +679,9 @@ def run(ctx):
         "blank the late-newline skip of lammpstrj_reader does not match and the next poll raises ValueError",
         "number tokens restricted to [+-]digits[.digits][e[+-]digits] (no inf/nan/underscores); float()/numpy "
         "string-to-double conversion assumed correctly rounded and identical",
-        "TRR: no Lean model; the real size guards are driven with struct-written frames (box+x+v, no forces), "
-        "reopen_file/read_remaining_trr are exercised only as far as the schedules reach them",
+        "TRR: the Lean model covers the size guards only (frame = header size + data size; theorem needs equal "
+        "header sizes ≤ TRR_HEAD_SIZE); decoding/byte order/precision are checked by the tie on struct-written "
+        "frames (box+x+v, no forces); reopen_file/read_remaining_trr only as far as the schedules reach them",
         "xyz theorems for the as-is reader hold only for cuts at line ends (xyz_safety_partial); the unrestricted "
         "theorem is proved for the `repaired` variant of the model",
     ]
